@@ -15,7 +15,7 @@ def unit():
         Sel('struct Closure', inside='process_with_backend'),
         Sel('impl BlockSizeUser for Closure', inside='process_with_backend'),
         Sel('impl BlockCipherEncClosure for Closure', inside='process_with_backend', members='''
-    open spec fn pre_c(&self) -> bool { true }
+    open spec fn pre_c(&self) -> bool { self.f.kpre() }
     #[verifier::prophetic]
     open spec fn post_c(&self, enc: spec_fn(Blk) -> Blk) -> bool {
         self.f.kpost(belt_ks(enc), KAbs { base: Seq::empty(), pos: *self.s as int }, KAbs { base: Seq::empty(), pos: mut_ref_future(self.s) as int })
